@@ -32,6 +32,9 @@ class HV:
     const: object = None  # python constant, when known
     why: str = ""  # reason for TOP
     proj: bool = False  # derived from coordinates of a projective object (even when its degree is 0)
+    mixed: str = ""  # DEFINITELY inhomogeneous array (entries / summands of different definite degree or sign); only identity-like
+    #                  operations keep the flag, every other operation turns it into TOP
+    ones: bool = False  # untainted array that contains non-zero constants (np.eye, np.ones)
 
     # ------------------------------------------------------------------ views
     def dmap(self) -> dict:
@@ -49,6 +52,8 @@ class HV:
     def describe(self) -> str:
         if self.top:
             return "TOP" + (f" ({self.why})" if self.why else "")
+        if self.mixed:
+            return f"MIXED ({self.mixed})"
         if self.parts:
             return "[" + "; ".join(p.describe() for p in self.parts) + "]"
         if not self.deg and not self.cols:
@@ -93,6 +98,8 @@ def _mul_maps(a: dict, b: dict, sign: int = 1) -> dict:
 
 def mul(a: HV, b: HV, sign: int = 1) -> HV:
     """a * b (sign=1) or a / b (sign=-1), element-wise or matrix products alike."""
+    if a.mixed or b.mixed:
+        return TOP("derived from an inhomogeneous array")
     if a.top or b.top:
         return TOP(a.why or b.why)
     if a.parts or b.parts:
@@ -118,6 +125,8 @@ def mul(a: HV, b: HV, sign: int = 1) -> HV:
 
 
 def power(a: HV, n) -> HV:
+    if a.mixed:
+        return TOP("derived from an inhomogeneous array")
     if a.top:
         return a
     if a.parts or a.cols:
@@ -142,6 +151,8 @@ def sqrt(a: HV) -> HV:
 
 
 def absval(a: HV) -> HV:
+    if a.mixed:
+        return TOP("derived from an inhomogeneous array")
     if a.top:
         return a
     if a.parts:
@@ -164,6 +175,8 @@ def add(a: HV, b: HV, sign: int = 1, tolerance: bool = False) -> HV:
     """a + b / a - b. Equal maps are kept, anything else is inhomogeneous (TOP)."""
     if a.top or b.top:
         return TOP(a.why or b.why)
+    if a.mixed or b.mixed:
+        return TOP("derived from an inhomogeneous array")
     if tolerance:
         return a if a.tainted or not b.tainted else b
     if a.zero and not a.tainted:
@@ -181,11 +194,21 @@ def add(a: HV, b: HV, sign: int = 1, tolerance: bool = False) -> HV:
         if has_generic(a):
             return TOP("sum of raw coordinates of (possibly different) vertices, each with its own scale")
         return replace(a, aff=None, zero=False, const=None)
+    if a.tainted and b.tainted and not (a.parts or a.cols or b.parts or b.cols) and not has_generic(a) and not has_generic(b):
+        da, db = a.dmap(), b.dmap()
+        if set(da) == set(db) and all(da[k][0] == db[k][0] for k in da):
+            diff = [k for k in da if da[k][1] != db[k][1]]
+            if diff and all(PHASE not in (da[k][1], db[k][1]) for k in diff):
+                return replace(a, aff=None, zero=False, const=None,
+                               mixed=(f"the two summands have the same degree but pick up different signs when {', '.join(diff)} is replaced by a "
+                                      f"negative multiple: {a.describe()[:150]} +/- {b.describe()[:150]}")[:480])
     return TOP(f"inhomogeneous sum: {a.describe()} +/- {b.describe()}")
 
 
 def det_rows(rows: list[HV]) -> HV:
     """det(np.stack(rows, axis=-2)): multilinear in the rows."""
+    if any(r.mixed for r in rows):
+        return TOP("derived from an inhomogeneous array")
     if any(r.top for r in rows):
         return TOP(next(r.why for r in rows if r.top))
     if any(r.parts for r in rows):
@@ -205,6 +228,8 @@ def det_rows(rows: list[HV]) -> HV:
 
 def det_matrix(a: HV) -> HV:
     """det(M) for an array that was not built by stacking known rows."""
+    if a.mixed:
+        return TOP("derived from an inhomogeneous array")
     if a.top:
         return a
     if a.parts:
@@ -220,6 +245,8 @@ def det_matrix(a: HV) -> HV:
 
 
 def matvec(mat: HV, vec: HV) -> HV:
+    if mat.mixed or vec.mixed:
+        return TOP("derived from an inhomogeneous array")
     if mat.top or vec.top:
         return TOP(mat.why or vec.why)
     if vec.parts or vec.cols:
@@ -240,6 +267,8 @@ def join(a: HV | None, b: HV | None) -> HV | None:
         return a
     if a == b:
         return a
+    if a.mixed or b.mixed:
+        return a if a.mixed and (b.mixed or not b.tainted) else (b if b.mixed and not a.tainted else TOP("derived from an inhomogeneous array"))
     if a.zero and not a.tainted and b.tainted:
         return b
     if b.zero and not b.tainted and a.tainted:
